@@ -59,6 +59,46 @@ CHECKS = {
         technique="TLA+ model of the exporter + converter acceptance, TLC exhaustive, each case round-tripped through proto2python and ORT",
         design_ref="DESIGN.md section 4 C13",
     ),
+    "C05": dict(
+        level="model_checking",
+        text="Rules.tla models one application attempt of one shipped rewrite rule to one host model as the steps of try_rewrite (Match incl. literal "
+             "tolerance and removability, Check = the rule's side condition, Rewrite, Replace) for 25 rule families (51 of the 53 exported names of "
+             "rules.common) over parameter tuples (shapes incl. [1], [1,1], rank extension, symbolic/unknown dims, bounds in every order, attributes at "
+             "non-default values, constants as initializer/Constant/graph input, opset); both sides are evaluated exactly on Tensor.tla (integer MatMul, "
+             "Gemm, Conv, Pad, ScatterND, BatchNorm, Cast, Clip); invariants Sound / NoFireOnUnknown on the design, DeviationsExplain on the "
+             "implementation model. Every tuple becomes a real model; RewriteRuleSet([rule]).apply_to_model from the real code; fired/raised vs the "
+             "model; onnx.checker and ORT before vs after (dtype, shape, exact values) on two feeds.",
+        note="float-kernel families (hardswish, qlinear conv bias, rules.fusion.*) are not covered; Conv is 1-D with <=2 channels; one integer-valued "
+             "tensor per host plus a second feed changing overridable operands",
+        technique="TLA+ Lhs/Cond/Rhs model per rule with exact integer tensor semantics, TLC exhaustive over parameter tuples, each tuple replayed through the real rule + ORT",
+        design_ref="DESIGN.md section 4 C05, Appendix C",
+    ),
+    "C08": dict(
+        level="model_checking",
+        text="AtenOps.tla gives ATen source semantics (Aten) for 207 registered overloads in 9 families over Tensor.tla with the operator's domain as "
+             "enabling condition, and the torch_lib lowering (Low) transcribed onto ONNX semantics for the ops whose lowering has case analysis; "
+             "DesignOK (Low without deviations = Aten) and DeviationsExplain; the registry is read from the real get_torchlib_ops(). AtenModule.tla "
+             "simulates small modules with PyTorch type promotion. Each case runs in torch eager and in the registered function traced as the exporter "
+             "does (OpRecorder) on ORT; each simulated module is exported with torch.onnx.export(dynamo=True, custom_translation_table=this repo's "
+             "functions) and compared with torch and with TLC's values.",
+        note="values are exact for integer-valued families; float kernels (softmax, norms, pool, conv, transcendental) are judged on structure/dtype/shape "
+             "and values within dtype tolerance; onnx.reference arbitrates run-time refusals of ORT's zero-size kernels only",
+        technique="TLA+ ATen semantics vs lowering model over the real registry, TLC exhaustive per family + simulated modules, replayed into torch eager vs traced function on ORT and dynamo export",
+        design_ref="DESIGN.md section 4 C08",
+    ),
+    "C19": dict(
+        level="exploration",
+        text="OrtFusion.tla models the fuse_xformers / optimize_for_ort pipeline protocol as named steps, the dimension unifier check_shape, and per "
+             "fusion a guard transcribed from pattern()+check() against the constraints the fused contrib operator imposes (DesignOK: every fired "
+             "fusion is safe; ProtocolOK); FusedMatMul.tla models the 14 fused-matmul rules as term rewriting with exact integer semantics (Eval "
+             "preserved). TLC enumerates the configuration tuples (batch, sequence, heads, kv heads, head size, bias/mask/past, operand order, eps, "
+             "axis, dtype); each is built as a real pattern instance, run through its fuse_* chain and optimize_for_ort, and fusion counts, fused-op "
+             "census and ORT outputs before/after are compared.",
+        note="the numerical half is an observable equality on onnxruntime (CPU EP) with dtype tolerance on one random input per configuration; "
+             "com.microsoft.GroupNorm has no CPU kernel (structural only)",
+        technique="TLA+ pipeline protocol + guard tables + exact FusedMatMul term rewriting, TLC exhaustive over configuration tuples, spec-directed replay on ORT",
+        design_ref="DESIGN.md section 4 C19",
+    ),
     "C10": dict(
         level="model_checking",
         text="VersionConvert.tla models convert_version as a pipeline of named steps (entry form, inline, path decision, per-node adapter steps incl. "
